@@ -374,6 +374,7 @@ def run(ctx):
     lap("oracle+shrink")
     if not ctx.replay:
         handler_oracle(ctx)
+        private_retry_oracle(ctx)
         lap("leg-v2-handler")
         resume_oracle(ctx, binary)
         duplicate_add_oracle(ctx, binary)
@@ -440,7 +441,7 @@ def run(ctx):
             sig.append((op["op"], op.get("s"), op.get("ref"), st))
         if stopped and delivered:
             distinct.add(hash((json.dumps(h.reset.get("beh"), sort_keys=True), tuple(sig))))
-    ctx.cov["evaluations"] = len(impl) + sum(ctx.cov.get(k, {}).get("ops", 0) for k in ("options_leg", "api_leg", "receivers_leg"))
+    ctx.cov["evaluations"] = len(impl) + sum(ctx.cov.get(k, {}).get("ops", 0) for k in ("options_leg", "api_leg", "receivers_leg", "private_retry_leg"))
     ctx.cov["distinct_nontrivial"] = len(distinct)
     ctx.cov["traces_validated_against_impl"] = len(impl) - len(bad)
     ctx.cov["rule"] = ("histories over a pool of 10 real signed transactions (public/private, did/vc/revocation/other payload types, two roots, two "
@@ -520,6 +521,62 @@ def handler_oracle(ctx):
     if wrong:
         ctx.violation("C14:receiver-misclassifies:private", f"real handlePrivateTxRetry: expected {want}, observed {got} (dlq {dlq})",
                       "receiver-classification-private.txt", f"scenario of harness/inpkg/network/transport/v2/zz_verif_c14_test.go: expected {want}, observed {got}, dlq {dlq}\n")
+
+
+def private_expect(op):
+    """the property-side expectation for handlePrivateTxRetry: the first failing step decides; its error is retried only when
+    the chain holds a database error, otherwise it is returned under EventFatal (wrapped once more by fmt.Errorf %w);
+    payload present / PAL not for us: done"""
+    def wrap(c):
+        err = ["msg"] + (c if "db" in c else ["fatal"] + c)
+        return False, err
+    if op.get("perr") is not None:
+        done, err = wrap(op["perr"])
+    elif op.get("present"):
+        done, err = True, None
+    elif op.get("derr") is not None:
+        done, err = wrap(op["derr"])
+    elif op.get("palNil"):
+        done, err = True, None
+    else:
+        return None
+    return "recv|done=%s|err=%s|class=%s" % (str(done).lower(), ">".join(err) if err else "-", recv_class(done, err))
+
+
+def private_retry_oracle(ctx):
+    """GENERATED direct calls of the REAL v2 handlePrivateTxRetry (payload present or not, resolver errors as generated Unwrap
+    chains, a closed store under IsPayloadPresent) against NutsModel.C14.Receivers.privateRetry and the expectation recomputed here"""
+    pkg, files, name = HARNESSES[1]
+    hb = ctx.go_test_binary(pkg, files, name)
+    if hb is None:
+        return  # reported by handler_oracle
+    d = os.path.join(ctx.scratch, "outhp")
+    rc, log, out = ctx.run_harness(hb, "TestVerifC14PrivateRetry", {}, outdir=d, timeout=300)
+    if rc != 0:
+        ctx.oblige("private-retry-harness-runs", False, "\n".join(l for l in log.split("\n") if "level=audit" not in l)[-1200:])
+        return
+    ops_p, impl_p, model_p = (os.path.join(out, x) for x in ("ops.jsonl", "impl.out", "model.out"))
+    okm, err = ctx.model("C14", ops_p, model_p)
+    impl, model, bad = ctx.compare(impl_p, model_p)
+    ops = [json.loads(x) for x in ctx.read_lines(ops_p) if x.strip()]
+    wrong = [(i, private_expect(op), line) for i, (op, line) in enumerate(zip(ops, impl)) if line != private_expect(op)]
+    classes = {}
+    for line in impl:
+        k = line.rsplit("|class=", 1)[-1]
+        classes[k] = classes.get(k, 0) + 1
+    n_perr = sum(1 for o in ops if o.get("perr") is not None)
+    ctx.oblige("private-retry-harness-runs", len(ops) > 0 and len(ops) == len(impl) and all(classes.get(k, 0) > 0 for k in ("done", "fail", "fatal")) and n_perr > 0,
+               f"{len(ops)} calls ({n_perr} on a closed store), classes {classes}")
+    ctx.oblige("oracle:private:handlePrivateTxRetry-on-generated-errors(db-error=retried,other=EventFatal-under-%w,present/not-for-us=done)",
+               not wrong, "; ".join(f"op {json.dumps(ops[i])[:160]}: want {w} got {g}" for i, w, g in wrong[:3]))
+    if wrong:
+        i, w, g = wrong[0]
+        ctx.violation("C14:receiver-misclassifies:private", f"real v2 handlePrivateTxRetry, call {json.dumps(ops[i])[:200]}: expected {w}, observed {g}",
+                      "receiver-classification-private.jsonl", json.dumps(ops[i]) + "\n")
+    ctx.oblige("correspondence:private-retry-model=impl", okm and not bad, f"{len(bad)} of {len(impl)} lines differ" if bad else f"{len(impl)} lines equal")
+    if bad and not wrong:
+        ctx.unproved(["correspondence C14 handlePrivateTxRetry (Receivers model != impl)"], f"op {json.dumps(ops[bad[0]])[:300]}\nimpl {impl[bad[0]][:300]}\nmodel {model[bad[0]][:300]}")
+    ctx.cov["private_retry_leg"] = {"ops": len(ops), "closed_store_calls": n_perr, "classes": classes}
 
 
 def resume_oracle(ctx, binary):
